@@ -7,9 +7,10 @@ chooser* for a permutation when an instance with >= 2 elements is iterated (choi
 order, independent of hash seed and of object addresses) -- and ``id(x)`` into ``__verif_id__(x)``.
 
 Because the transform is applied to whatever the tree contains, a set iteration introduced by an
-edit is owned automatically.  Sets produced by C-level set algebra (a - b, a | b) come back as
-plain ``set`` and are NOT owned; iterations over those are not counted here (the real hash-seed
-sweep of C12 covers them).
+edit is owned automatically.  Set algebra on an owned set (a - b, a | b, a.intersection(b), ...) gives
+an owned set again; only sets that never passed through a transformed expression (e.g. dict views,
+sets built inside C code or in modules outside the prefixes) are not owned -- the real hash-seed
+sweep of C12 covers those.
 """
 from __future__ import annotations
 
@@ -107,6 +108,47 @@ class PermSet(set):
         c = PermSet(set.__iter__(self))
         c._site = getattr(self, "_site", "?")
         return c
+
+    # results of set algebra stay owned (C-level set operations return plain sets for subclasses)
+    def _derived(self, result, op):
+        if result is NotImplemented:
+            return result
+        c = PermSet(set.__iter__(result) if isinstance(result, PermSet) else result)
+        c._site = getattr(self, "_site", "?") + op
+        return c
+
+    def __sub__(self, other):
+        return self._derived(set.__sub__(self, other), "-")
+
+    def __rsub__(self, other):
+        return self._derived(set.__rsub__(self, other), "-")
+
+    def __or__(self, other):
+        return self._derived(set.__or__(self, other), "|")
+
+    __ror__ = __or__
+
+    def __and__(self, other):
+        return self._derived(set.__and__(self, other), "&")
+
+    __rand__ = __and__
+
+    def __xor__(self, other):
+        return self._derived(set.__xor__(self, other), "^")
+
+    __rxor__ = __xor__
+
+    def union(self, *others):
+        return self._derived(set.union(self, *others), "|")
+
+    def intersection(self, *others):
+        return self._derived(set.intersection(self, *others), "&")
+
+    def difference(self, *others):
+        return self._derived(set.difference(self, *others), "-")
+
+    def symmetric_difference(self, other):
+        return self._derived(set.symmetric_difference(self, other), "^")
 
 
 class PermFrozenSet(frozenset):
@@ -208,14 +250,15 @@ TRANSFORMED: dict[str, int] = {}
 class Finder(importlib.abc.MetaPathFinder):
     def __init__(self, prefixes: list[str], repo: str, own_ids: bool):
         self.prefixes = prefixes
-        self.repo = repo
+        # the tree under test first, then the stand-in packages (toposort iterates sets on behalf of the generator)
+        self.roots = [repo, os.path.join(os.path.dirname(os.path.dirname(os.path.abspath(__file__))), "shims")]
         self.own_ids = own_ids
 
     def find_spec(self, fullname, path, target=None):
         if not any(fullname == p or fullname.startswith(p + ".") for p in self.prefixes):
             return None
         rel = fullname.replace(".", "/")
-        for cand, is_pkg in ((os.path.join(self.repo, rel, "__init__.py"), True), (os.path.join(self.repo, rel + ".py"), False)):
+        for cand, is_pkg in [c for root in self.roots for c in ((os.path.join(root, rel, "__init__.py"), True), (os.path.join(root, rel + ".py"), False))]:
             if os.path.exists(cand):
                 loader = _Loader(cand, fullname, self.own_ids)
                 return importlib.util.spec_from_file_location(
